@@ -708,7 +708,7 @@ class AsyncServer:
 
         .. seealso:: :meth:`Server.stream`
         """
-        async for z in async_fifo_stream(
+        results = async_fifo_stream(
             data_stream,
             self._enqueue,
             capacity=self._capacity,
@@ -717,5 +717,12 @@ class AsyncServer:
             preprocessor=preprocessor,
             return_x=return_x,
             return_exceptions=return_exceptions,
-        ):
-            yield z
+        )
+        try:
+            async for z in results:
+                yield z
+        finally:
+            # Close the inner generator now. Otherwise, when the consumer stops early,
+            # it is finalized at some later time by the event loop, and its feeder task
+            # keeps enqueuing requests meanwhile, possibly after the server has stopped.
+            await results.aclose()
